@@ -3,6 +3,11 @@ use crate::bddhist::*;
 use crate::ctx::Ctx;
 use crate::rng::Rng;
 use rsdd::verif::BackedRobinhoodTable;
+use crate::walk::bdd_nodes;
+use crate::with_robdd;
+use rsdd::builder::bdd::BddBuilder;
+use rsdd::builder::BottomUpBuilder;
+use rsdd::repr::{BddNode, BddPtr, DDNNFPtr, VarLabel};
 use serde_json::json;
 use std::collections::{HashMap, HashSet};
 
@@ -43,6 +48,13 @@ pub fn run(ctx: &mut Ctx) {
     // direct set-model monitor of the unique table
     for case in ctx.cases("table", 600, true) {
         ctx.run_case("table", case, |ctx, rng| table_model(ctx, rng));
+    }
+    // library-default capacities, > 100 000 nodes in one builder: the real 131072-slot
+    // table grows (no truth tables here: canonicity by re-deriving every function along
+    // a second construction path, shape and table membership as before)
+    let nbig = if ctx.tier == "thorough" { 12 } else { 2 };
+    for case in ctx.cases("default_big", nbig, false) {
+        ctx.run_case("default_big", case, |ctx, rng| big_default(ctx, rng, case));
     }
     if ctx.tier == "thorough" || ctx.only.is_some() {
         // library-default capacity: enough nodes that the real 131072-slot table grows
@@ -168,4 +180,81 @@ fn table_model(ctx: &mut Ctx, rng: &mut Rng) {
             "keys": history.iter().take(24).collect::<Vec<_>>(), "grows": g}));
     }
     // the table (and its arena) is intentionally leaked, like the builders' arenas
+}
+
+fn big_default(ctx: &mut Ctx, rng: &mut Rng, case: u64) {
+    let n = rng.range(80, 100);
+    let cfg = HistCfg {
+        n0: n,
+        max_new: 0,
+        order: rng.perm(n),
+        cache: if case % 2 == 0 { CacheKind::All } else { CacheKind::Lru },
+        uniq_cap: None,
+        lru_bits: None,
+        nops: 0,
+    };
+    let target = rng.range(100_000, 125_000);
+    with_robdd!(cfg, b, {
+        let lit = |v: usize, p: bool| b.var(VarLabel::new(v as u64), p);
+        let mut made: Vec<(usize, usize, usize, u8, BddPtr)> = Vec::with_capacity(target);
+        // conjunctions of three literals over distinct variables, in random order
+        let mut seen = std::collections::HashSet::new();
+        while made.len() < target {
+            let mut t = [rng.below(n), rng.below(n), rng.below(n)];
+            t.sort();
+            if t[0] == t[1] || t[1] == t[2] {
+                continue;
+            }
+            let pol = rng.below(8) as u8;
+            if !seen.insert((t[0], t[1], t[2], pol)) {
+                continue;
+            }
+            let a = lit(t[0], pol & 1 == 1);
+            let c = lit(t[1], pol & 2 == 2);
+            let d = lit(t[2], pol & 4 == 4);
+            let r = b.and(b.and(a, c), d);
+            made.push((t[0], t[1], t[2], pol, r));
+        }
+        let (grows, _, _) = rsdd::verif::take_counters();
+        ctx.count("default_table_growths", grows);
+        ctx.count("big_results", made.len() as u64);
+        // second construction path for every function, after the table has grown
+        let mut known: std::collections::HashMap<usize, &BddNode> = std::collections::HashMap::new();
+        for (k, (i, j, l, pol, r)) in made.iter().enumerate() {
+            let a = lit(*i, pol & 1 == 1);
+            let c = lit(*j, pol & 2 == 2);
+            let d = lit(*l, pol & 4 == 4);
+            let r2 = b.and(d, b.and(c, a));
+            ctx.count("big_rederivations", 1);
+            if r2 != *r || !b.eq(r2, *r) {
+                ctx.violation("bdd.canon.default_capacity", "the same function derived twice gives two nodes (library-default table size)",
+                    json!({"vars": [i, j, l], "polarities": pol, "index": k, "results_before": made.len(), "table_growths": grows, "cfg": cfg.to_json()}));
+                return;
+            }
+            if k % 7 == 0 {
+                for nd in bdd_nodes(*r) {
+                    known.insert(nd as *const BddNode as usize, nd);
+                }
+            }
+        }
+        for nd in known.values() {
+            ctx.count("membership_lookups", 1);
+            let lvl = b.order_ref().get(nd.var);
+            let ok_shape = nd.low != nd.high
+                && !matches!(nd.high, BddPtr::Compl(_) | BddPtr::PtrFalse)
+                && [nd.low, nd.high].iter().all(|c| c.var_safe().map(|v| b.order_ref().get(v) > lvl).unwrap_or(true));
+            if !ok_shape {
+                ctx.violation("bdd.shape", "malformed node (library-default table size)", json!({"cfg": cfg.to_json()}));
+                return;
+            }
+            if b.get_or_insert(BddNode::new(nd.var, nd.low, nd.high)) != BddPtr::Reg(nd) {
+                ctx.violation("bdd.table.membership", "lookup of a stored node returned another address",
+                    json!({"when": "default capacity, after growth", "table_growths": grows, "cfg": cfg.to_json()}));
+                return;
+            }
+        }
+        ctx.maxc("nodes_in_one_builder", made.len() as u64);
+        ctx.case_eval(Some(crate::rng::mix(rng.next())));
+        let _ = made[0].4.is_true();
+    });
 }
